@@ -58,8 +58,12 @@ def mini_spec():
         m.assoc("Twin", "C", "tc2", "B", "tb2"),
         m.assoc("One", "B", "oneB", "C", "manyC", lmult=(0, 1)),
         m.assoc("SubOnly", "A1", "a1s", "B1", "b1s"),
+        # two associations sharing BOTH field names between different asset types (look-alike roles)
+        m.assoc("HostsC", "B", "host", "C", "guests"),
+        m.assoc("HostsD", "A", "host", "D", "guests"),
     ]
-    return m.lang([A, A1, B, B1, C], assocs, lid="org.verif.trans", version="0.0.1")
+    D = m.asset("D", steps=[m.attack_step("x", "or", reaches=[m.path(m.field("host"), m.step("t"))])])
+    return m.lang([A, A1, B, B1, C, D], assocs, lid="org.verif.trans", version="0.0.1")
 
 
 def core_mar_path():
